@@ -228,7 +228,18 @@ impl Part for C06 {
                     let mut b = body.to_vec();
                     b.extend(std::iter::repeat(fillb).take(n));
                     vars.push(mk(&b, tag, &target.aad, None, format!("body extended by {} x {:#x}", n, fillb)));
+                    // the tag travels as bytes too (AeadTag::from_bytes): extended and truncated tags
+                    let mut t = tag.to_vec();
+                    t.extend(std::iter::repeat(fillb).take(n));
+                    vars.push(mk(body, &t, &target.aad, None, format!("tag bytes extended by {} x {:#x}", n, fillb)));
                 }
+            }
+            for l in 0..nt {
+                vars.push(mk(body, &tag[..l], &target.aad, None, format!("tag bytes truncated to {}", l)));
+            }
+            if let Some(o) = msgs.iter().enumerate().find(|(j, _)| *j != c.pos).map(|x| x.1) {
+                let t2 = [tag, &o.ct[o.ct.len() - nt..]].concat();
+                vars.push(mk(body, &t2, &target.aad, None, "tag || tag of another message".into()));
             }
         }
         // substitutions from every other message of the session
@@ -297,6 +308,8 @@ impl Part for C06 {
             };
             match res {
                 Obs::Err(HpkeError::OpenError) => {}
+                // a tag of the wrong length cannot even become an AeadTag: rejected before any opening
+                Obs::Pre(HpkeError::IncorrectInputLength(_, _)) if !alloc && v.tag.len() != nt => {}
                 o => {
                     let detail = if let Obs::Ok(p) = &o { format!(" returning plaintext {}", crate::obs::hx(p)) } else { String::new() };
                     out.fail(format!("{:?} at position {} shape {:?}: variant '{}' got {}{} want Err(OpenError)", c.iface, c.pos, SHAPES[c.shape], v.what, o.class(), detail));
